@@ -366,45 +366,59 @@ theorem handleRunner_cases (ctx : Model.Context) (bus : BufferedBus Runner) (c p
 theorem cuBusLoop_spec (c : Int) : ∀ (n : Nat) (st : CuSt), st.pendings.items = [] →
     ∃ pushed, Issued c st.pushed pushed (st.ctx, st.outBus) ((cuBusLoop c n st).ctx, (cuBusLoop c n st).outBus) ∧
       pushed ++ (cuBusLoop c n st).pendings.items.map (·.2) ++ (cuBusLoop c n st).inBus.inside = st.inBus.inside ∧
-      (cuBusLoop c n st).pendings.items.length ≤ 1 := by
+      (cuBusLoop c n st).pendings.items.length ≤ 1 ∧ (pushed.length : Int) ≤ max st.remaining 0 := by
   intro n
   induction n with
-  | zero => intro st hp; exact ⟨[], Issued.nil _ _, by simp [cuBusLoop, hp], by simp [cuBusLoop, hp]⟩
+  | zero => intro st hp; exact ⟨[], Issued.nil _ _, by simp [cuBusLoop, hp], by simp [cuBusLoop, hp], by simp only [List.length_nil, Int.natCast_zero]; omega⟩
   | succ n ih =>
     intro st hp
     simp only [cuBusLoop]
     split
-    · exact ⟨[], Issued.nil _ _, by simp [hp], by simp [hp]⟩
-    · cases hq : st.inBus.queue with
+    · exact ⟨[], Issued.nil _ _, by simp [hp], by simp [hp], by simp only [List.length_nil, Int.natCast_zero]; omega⟩
+    · rename_i hcond
+      have hrem : st.remaining > 0 := by
+        have hb : (decide (st.remaining > 0) && !st.pendings.isFull) = true := by simpa using hcond
+        simp only [Bool.and_eq_true, decide_eq_true_eq] at hb
+        exact hb.1
+      cases hq : st.inBus.queue with
       | nil =>
         simp only [get_none _ hq]
-        exact ⟨[], Issued.nil _ _, by simp [hp], by simp [hp]⟩
+        exact ⟨[], Issued.nil _ _, by simp [hp], by simp [hp], by simp only [List.length_nil, Int.natCast_zero]; omega⟩
       | cons r q =>
         simp only [get_some _ r q hq]
         have hin : st.inBus.inside = r :: ({ st.inBus with queue := q } : BufferedBus Runner).inside := by
           simp only [BufferedBus.inside, hq, List.cons_append]
         rcases handleRunner_cases st.ctx st.outBus c st.pushed r with hh | ⟨hz, hre, hbr, hh⟩
         · simp only [hh, Bool.false_eq_true, if_false, if_true]
-          refine ⟨[], Issued.nil _ _, ?_, ?_⟩
+          refine ⟨[], Issued.nil _ _, ?_, ?_, by simp only [List.length_nil, Int.natCast_zero]; omega⟩
           · simp only [Queue.push, hp, List.nil_append, List.map_cons, List.map_nil, hin, List.cons_append]
           · simp only [Queue.push, hp, List.nil_append, List.length_cons, List.length_nil]; omega
         · simp only [hh, if_true]
           split
-          · refine ⟨[r], Issued.cons _ r [] _ _ _ hz (fun h => ⟨hre h, rfl⟩) hbr (Issued.nil _ _), ?_, ?_⟩
+          · refine ⟨[r], Issued.cons _ r [] _ _ _ hz (fun h => ⟨hre h, rfl⟩) hbr (Issued.nil _ _), ?_, ?_, ?_⟩
             · simp only [hp, List.map_nil, List.append_nil, hin, List.cons_append, List.nil_append]
             · simp only [hp, List.length_nil]; omega
+            · simp only [List.length_cons, List.length_nil]; omega
           · rename_i hnr
-            obtain ⟨pushed, i1, i2, i3⟩ := ih
+            obtain ⟨pushed, i1, i2, i3, i4⟩ := ih
               { st with inBus := { st.inBus with queue := q }, ctx := addPendingRegisters st.ctx r.instr,
                         outBus := st.outBus.add r c, remaining := st.remaining - 1, pushed := st.pushed + 1 } hp
-            refine ⟨r :: pushed, Issued.cons _ r pushed _ _ _ hz (fun h => absurd h hnr) hbr i1, ?_, i3⟩
-            rw [hin, List.cons_append, List.cons_append, i2]
+            refine ⟨r :: pushed, Issued.cons _ r pushed _ _ _ hz (fun h => absurd h hnr) hbr i1, ?_, i3, ?_⟩
+            · rw [hin, List.cons_append, List.cons_append, i2]
+            · simp only [List.length_cons, Int.natCast_add, Int.natCast_one] at i4 ⊢; omega
 
 theorem issued_sid {c p : Int} {rs : List Runner} {x y : Model.Context × BufferedBus Runner} (h : Issued c p rs x y) :
     y.1.sequenceID = x.1.sequenceID ∧ y.1.Registers = x.1.Registers ∧ y.1.Memory = x.1.Memory := by
   induction h with
   | nil p x => exact ⟨rfl, rfl, rfl⟩
   | cons p r rs ctx bus y _ _ _ _ ih => exact ih
+
+theorem issued_buffer {c p : Int} {rs : List Runner} {x y : Model.Context × BufferedBus Runner} (h : Issued c p rs x y) :
+    y.2.buffer = x.2.buffer ++ rs.map (fun r => (c + 1, r)) := by
+  induction h with
+  | nil p x => simp
+  | cons p r rs ctx bus y _ _ _ _ ih =>
+    rw [ih]; simp only [BufferedBus.add, List.append_assoc, List.singleton_append, List.map_cons]
 
 /-- a branch among the runners issued in one cycle is the first of them -/
 theorem issued_branch_head {c p : Int} {rs : List Runner} {x y : Model.Context × BufferedBus Runner} (h : Issued c p rs x y) :
@@ -448,31 +462,33 @@ theorem cuLoops_spec (c : Int) (st0 : CuSt) : ∀ (items : List (Nat × Runner))
     ∃ pushed, Issued c st0.pushed pushed (st0.ctx, st0.outBus) ((cuLoops c items st0).ctx, (cuLoops c items st0).outBus) ∧
       pushed ++ (cuLoops c items st0).pendings.items.map (·.2) ++ (cuLoops c items st0).inBus.inside =
         items.map (·.2) ++ st0.inBus.inside ∧
-      (cuLoops c items st0).pendings.items.length ≤ 1
+      (cuLoops c items st0).pendings.items.length ≤ 1 ∧ (pushed.length : Int) ≤ 1 + max (st0.remaining - 1) 0
   | [], hit, _ => by
     simp only [cuLoops, cuPendingLoop, Bool.false_eq_true, if_false]
-    obtain ⟨pushed, i1, i2, i3⟩ := cuBusLoop_spec c (st0.inBus.pendingRead.toNat + 1) st0 hit
-    exact ⟨pushed, i1, by simpa using i2, i3⟩
+    obtain ⟨pushed, i1, i2, i3, i4⟩ := cuBusLoop_spec c (st0.inBus.pendingRead.toNat + 1) st0 hit
+    exact ⟨pushed, i1, by simpa using i2, i3, by omega⟩
   | [(hd, r)], hit, _ => by
     simp only [cuLoops, cuPendingLoop]
     rcases handleRunner_cases st0.ctx st0.outBus c st0.pushed r with hh | ⟨hz, hre, hbr, hh⟩
     · simp only [hh, Bool.false_eq_true, if_false, if_true]
-      exact ⟨[], Issued.nil _ _, by simp [hit], by simp [hit]⟩
+      exact ⟨[], Issued.nil _ _, by simp [hit], by simp [hit], by simp only [List.length_nil, Int.natCast_zero]; omega⟩
     · simp only [hh, if_true]
       have hrem : (st0.pendings.remove hd).items = [] := by
         simp only [Queue.remove, hit, List.filter_cons, bne_self_eq_false, Bool.false_eq_true, if_false, List.filter_nil]
       split
       · simp only [if_true]
-        exact ⟨[r], Issued.cons _ r [] _ _ _ hz (fun h => ⟨hre h, rfl⟩) hbr (Issued.nil _ _), by simp [hrem], by simp [hrem]⟩
+        exact ⟨[r], Issued.cons _ r [] _ _ _ hz (fun h => ⟨hre h, rfl⟩) hbr (Issued.nil _ _), by simp [hrem], by simp [hrem],
+          by simp only [List.length_cons, List.length_nil]; omega⟩
       · rename_i hnr
         simp only [cuPendingLoop, Bool.false_eq_true, if_false]
-        obtain ⟨pushed, i1, i2, i3⟩ := cuBusLoop_spec c
+        obtain ⟨pushed, i1, i2, i3, i4⟩ := cuBusLoop_spec c
           (({ st0 with ctx := addPendingRegisters st0.ctx r.instr, outBus := st0.outBus.add r c,
                        pendings := st0.pendings.remove hd, remaining := st0.remaining - 1, pushed := st0.pushed + 1 } : CuSt).inBus.pendingRead.toNat + 1)
           { st0 with ctx := addPendingRegisters st0.ctx r.instr, outBus := st0.outBus.add r c,
                      pendings := st0.pendings.remove hd, remaining := st0.remaining - 1, pushed := st0.pushed + 1 } hrem
         exact ⟨r :: pushed, Issued.cons _ r pushed _ _ _ hz (fun h => absurd h hnr) hbr i1,
-          by simp only [List.map_cons, List.map_nil, List.cons_append, List.nil_append] at i2 ⊢; rw [i2], i3⟩
+          by simp only [List.map_cons, List.map_nil, List.cons_append, List.nil_append] at i2 ⊢; rw [i2], i3,
+          by simp only [List.length_cons, Int.natCast_add, Int.natCast_one] at i4 ⊢; omega⟩
   | _ :: _ :: _, _, hl => by simp only [List.length_cons] at hl; omega
 
 theorem controlCycle_eq (s : State) : controlCycle s =
@@ -487,13 +503,15 @@ theorem controlCycle_spec (s : State) (hp : s.cuPendings.items.length ≤ 1) :
     ∃ pushed, Issued s.cycles 0 pushed (s.ctx, s.executeBus) ((controlCycle s).ctx, (controlCycle s).executeBus) ∧
       pushed ++ (controlCycle s).cuPendings.items.map (·.2) ++ (controlCycle s).controlBus.inside =
         s.cuPendings.items.map (·.2) ++ s.controlBus.inside ∧
-      (controlCycle s).cuPendings.items.length ≤ 1 ∧ CuFrame s (controlCycle s) := by
+      (controlCycle s).cuPendings.items.length ≤ 1 ∧ CuFrame s (controlCycle s) ∧
+      (pushed.length : Int) ≤ 1 + max (s.executeBus.remainingToAdd - 1) 0 := by
   rw [controlCycle_eq]
   split
-  · exact ⟨[], Issued.nil _ _, by simp, hp, ⟨rfl, rfl, rfl, rfl, rfl, rfl, rfl, rfl, rfl, rfl, rfl, rfl⟩⟩
-  · obtain ⟨pushed, i1, i2, i3⟩ := cuLoops_spec s.cycles
+  · exact ⟨[], Issued.nil _ _, by simp, hp, ⟨rfl, rfl, rfl, rfl, rfl, rfl, rfl, rfl, rfl, rfl, rfl, rfl⟩,
+      by simp only [List.length_nil, Int.natCast_zero]; omega⟩
+  · obtain ⟨pushed, i1, i2, i3, i4⟩ := cuLoops_spec s.cycles
       { ctx := s.ctx, inBus := s.controlBus, outBus := s.executeBus, pendings := s.cuPendings,
         remaining := s.executeBus.remainingToAdd, pushed := 0 } s.cuPendings.items rfl hp
-    exact ⟨pushed, i1, i2, i3, ⟨rfl, rfl, rfl, rfl, rfl, rfl, rfl, rfl, rfl, rfl, rfl, rfl⟩⟩
+    exact ⟨pushed, i1, i2, i3, ⟨rfl, rfl, rfl, rfl, rfl, rfl, rfl, rfl, rfl, rfl, rfl, rfl⟩, i4⟩
 
 end Proofs.Mvp60Sl
